@@ -226,6 +226,33 @@ func syncProbeCase(r *rand.Rand, o *hout.Out) {
 	}
 }
 
+// refusedProbeCase (C09 with C19's refusal): total silence from the peer, and the session's TestRequest cannot be sent
+// (an outgoing handler of the application refuses it, as a failing store would). The peer is silent all the same: the
+// second expiry must still raise the disconnect event and stop the handler.
+func refusedProbeCase(r *rand.Rand, o *hout.Out) {
+	side := r.Intn(2)
+	sr := newSess(side)
+	sr.h.HandleOutgoing("1", func(simplefixgo.SendingMessage) bool { return false })
+	dur := 2*T9 + 2*P9 + 500*time.Millisecond
+	time.Sleep(time.Until(sr.t0.Add(dur)))
+	outs, disc := sr.snapshot()
+	stopped := sr.h.Context().Err() != nil
+	sr.h.Stop()
+	mu.Lock()
+	defer mu.Unlock()
+	desc := fmt.Sprintf("side=%d total silence, the session's TestRequest refused by an outgoing handler", side)
+	o.Count("probe.refused")
+	o.Nontrivial("C09", desc)
+	for _, m := range outs {
+		if m.mt == "1" {
+			o.Fail("C19", "refused-message-transmitted", fmt.Sprintf("%s: a TestRequest reached the wire at %v", desc, m.at))
+		}
+	}
+	if disc == 0 || !stopped {
+		o.Fail("C09", "silent-peer-not-disconnected", fmt.Sprintf("%s: after %v of silence: disconnect event at %v, handler stopped=%v (expected by %v)", desc, dur, disc, stopped, 2*T9+P9))
+	}
+}
+
 // ---- sessions at N = 1
 
 type sessRun struct {
@@ -729,6 +756,9 @@ func main() {
 		rr6 := rand.New(rand.NewSource(r.Int63()))
 		wg.Add(1)
 		go func() { defer wg.Done(); syncProbeCase(rr6, o) }()
+		rr7 := rand.New(rand.NewSource(r.Int63()))
+		wg.Add(1)
+		go func() { defer wg.Done(); refusedProbeCase(rr7, o) }()
 		wg.Add(5)
 		go func() {
 			defer wg.Done()
